@@ -22,7 +22,8 @@ u64 vpx_pthread_self(void) { return 1; }
 u64 req_size, req_align;          /* what the harness asked the entry point for (alignment after the max(64,.) of callers) */
 int n_mlo, mlo_null, n_sbr, n_small, small_null; u64 a_asz; u8* the_lmb; u64 the_idx; u64 sbr_idx; u8* sbr_ptr;
 u64 small_p, small_usable, small_req;
-u8* the_tls;
+u8* the_tls; tls_t tls_obj;
+static u8* make_tls(void) { vp_tls_setup((u8*)&tls_obj, (u32)vp_nd()); return (u8*)&tls_obj; }
 
 lmb_t* _ZN3rml8internal13ExtMemoryPool17mallocLargeObjectEPNS0_10MemoryPoolEm(ext_t* ext, pool_t* pool, u64 asz) {
   n_mlo++; a_asz = asz;
@@ -95,9 +96,9 @@ int main(void) {
   __CPROVER_assume(size >= SIZE_GE);
 #endif
 #if TLS == 1
-  the_tls = vp_make_tls((u32)vp_nd());
+  the_tls = make_tls();
 #elif TLS == 2
-  if (vp_nd_bool()) the_tls = vp_make_tls((u32)vp_nd());
+  if (vp_nd_bool()) the_tls = make_tls();
 #endif
 #ifdef LG
   lg = LG;       /* placement scenario: concrete alignment so that the alignment masks are constants */
